@@ -493,6 +493,20 @@ for V_k, V_i in V_d.items():
             ps = f.params()
             cds = [n for n in ast.walk(f.node) if isinstance(n, ast.Call) and isinstance(n.func, ast.Attribute)
                    and n.func.attr == 'create_dataset' and unparse(n.func.value) == 'self._entry']
+            # a value that cannot be stored is an ERROR of the write (store_thing relies on the TypeError to fall back to
+            # element-wise storage of lists of dictionaries; the dictionary writer turns it into "unsupported type"):
+            # the dataset creation may not sit in a `try` whose handler lets the method carry on
+            # (handlers that only re-raise the class they caught are no handlers: sa/normalise.py)
+            swallowed = []
+            for t_ in ast.walk(f.node):
+                if isinstance(t_, ast.Try) and any(c_ in list(ast.walk(ast.Module(body=t_.body, type_ignores=[]))) for c_ in cds):
+                    for h_ in t_.handlers:
+                        if not (h_.body and isinstance(h_.body[-1], ast.Raise)):
+                            swallowed.append('except %s' % (unparse(h_.type) if h_.type is not None else ''))
+            R.check('4.h5.raise', 'EXC', site, '%s lets a failed dataset creation propagate to its caller' % nm,
+                    not swallowed, key='; '.join(swallowed),
+                    detail='create_dataset sits in a try whose handler (%s) does not re-raise: the value is silently not '
+                           'written and the callers never learn of it' % '; '.join(swallowed), loc=f.loc())
             ok = False
             why = ''
             # the value written is the value given: the parameter itself, never re-bound on the way (a conversion such
